@@ -30,29 +30,23 @@ inductive Ans where
   | unit
   deriving DecidableEq, Repr
 
+/-- wrap the value of a query -/
+def liftAns {α : Type} (f : α → Ans) (r : Except Err (α × Obj)) : Except Err (Ans × Obj) :=
+  match r with
+  | .ok (v, o') => .ok (f v, o')
+  | .error e => .error e
+
 /-- one call: the answer and the object afterwards.  `copy` is `obj = Interpolation(obj)`:
     the copy constructor / assignment copy every member, search state included. -/
 def step (o : Obj) : Op → Except Err (Ans × Obj)
-  | .interp x => match o.interpolate x with
-    | .ok (v, o') => .ok (.val v, o')
-    | .error e => .error e
-  | .deriv x k => match o.derivative x k with
-    | .ok (v, o') => .ok (.val v, o')
-    | .error e => .error e
-  | .integ a b => match o.integrate a b with
-    | .ok (v, o') => .ok (.val v, o')
-    | .error e => .error e
-  | .locmin a b => match o.localExt false a b with
-    | .ok (v, o') => .ok (.val v, o')
-    | .error e => .error e
-  | .locmax a b => match o.localExt true a b with
-    | .ok (v, o') => .ok (.val v, o')
-    | .error e => .error e
+  | .interp x => liftAns .val (o.interpolate x)
+  | .deriv x k => liftAns .val (o.derivative x k)
+  | .integ a b => liftAns .val (o.integrate a b)
+  | .locmin a b => liftAns .val (o.localExt false a b)
+  | .locmax a b => liftAns .val (o.localExt true a b)
   | .globmin => .ok (.val (o.globalExt false), o)
   | .globmax => .ok (.val (o.globalExt true), o)
-  | .locate x => match o.locate x with
-    | .ok (j, o') => .ok (.idx j, o')
-    | .error e => .error e
+  | .locate x => liftAns .idx (o.locate x)
   | .setpref p => .ok (.unit, o.setPrefactor p)
   | .mult p => .ok (.unit, o.multiply p)
   | .copy => .ok (.unit, o)
